@@ -60,9 +60,9 @@ theorem load_own_entry (U : Universe) (hinj : KeyInj U) (d : Disk) (wf : Wf U d)
 
 /-- `run_or_load_task` on a cache hit: the stored value is handed out, `run()` is not called, and
     the meta that is set on the task objects is the stored start/duration -/
-theorem cache_hit_returns_stored (U : Universe) (hinj : KeyInj U) (g : Nat) (a : Acc) (wf : Wf U a.disk)
+theorem cache_hit_returns_stored (U : Universe) (hinj : KeyInj U) (g : Nat) (fl : List Tid) (a : Acc) (wf : Wf U a.disk)
     (t : Tid) (s : Stored) (h : cLoad U a.disk t = some s) :
-    stepC U false g a t = { a with vals := (t, some s.val) :: a.vals, loaded := (t, s) :: a.loaded } := by
+    stepC U false g fl a t = { a with vals := (t, some s.val) :: a.vals, loaded := (t, s) :: a.loaded } := by
   have : labIsCached U a.disk t = true := by
     unfold labIsCached; rw [isCached_iff_load U a.disk t wf hinj, h]; rfl
   simp [stepC, this, h]
@@ -73,11 +73,11 @@ theorem cache_hit_returns_stored (U : Universe) (hinj : KeyInj U) (g : Nat) (a :
 theorem second_run_loads_first_runs_result (U : Universe) (hinj : KeyInj U) (d : Disk) (t : Tid) (r : Stored)
     (hc : cacheable U t = true) (hs : U.nullStorage = false)
     (others : List (Tid × Stored)) (hne : ∀ p ∈ others, p.1 ≠ t) (hlt : ∀ p ∈ others, p.1 < U.n)
-    (wf : Wf U d) (ht : t < U.n) (g : Nat) (a : Acc)
+    (wf : Wf U d) (ht : t < U.n) (g : Nat) (fl : List Tid) (a : Acc)
     (ha : a.disk = others.foldl (fun d p => cSave U d p.1 p.2) (cSave U d t r)) :
-    (stepC U false g a t).vals = (t, some r.val) :: a.vals ∧
-    (stepC U false g a t).execd = a.execd ∧
-    (stepC U false g a t).loaded = (t, r) :: a.loaded := by
+    (stepC U false g fl a t).vals = (t, some r.val) :: a.vals ∧
+    (stepC U false g fl a t).execd = a.execd ∧
+    (stepC U false g fl a t).loaded = (t, r) :: a.loaded := by
   have key : ∀ (l : List (Tid × Stored)) (d0 : Disk), (∀ p ∈ l, p.1 ≠ t) → (∀ p ∈ l, p.1 < U.n) → Wf U d0 →
       cLoad U d0 t = some r →
       Wf U (l.foldl (fun d p => cSave U d p.1 p.2) d0) ∧
@@ -95,7 +95,7 @@ theorem second_run_loads_first_runs_result (U : Universe) (hinj : KeyInj U) (d :
       · rw [(save_frame U hinj d0 p.1 t p.2 (fun e => hn p (List.mem_cons_self ..) e.symm)).1]; exact h
   obtain ⟨w, hl⟩ := key others (cSave U d t r) hne hlt (wf_save U d t r wf ht) (save_then_load U d t r hc hs)
   rw [← ha] at w hl
-  rw [cache_hit_returns_stored U hinj g a w t r hl]
+  rw [cache_hit_returns_stored U hinj g fl a w t r hl]
   exact ⟨rfl, rfl, rfl⟩
 
 /-! ## non-vacuity -/
@@ -112,8 +112,8 @@ example : KeyInj exU := by
 
 /-- run, then run again: the second run executes nothing and returns the stored values and meta -/
 example :
-    let a1 := labRun exU false 1 [2] []
-    let a2 := labRun exU false 2 [2] a1.disk
+    let a1 := labRun exU false 1 [] [2] []
+    let a2 := labRun exU false 2 [] [2] a1.disk
     a1.execd = [2, 1, 0] ∧ a2.execd = [] ∧ returned [2] a2 = returned [2] a1 ∧
     a2.loaded = [(2, { val := 3003, start := 1, dur := 102 })] := by decide
 
